@@ -213,7 +213,7 @@ class Shadow(object):
 
 # --------------------------------------------------------------- generator
 def gen(cls, idx, rng, tier):
-    L = rng.choice([16, 32, 32, 64, 64, rng.randint(1, 64)])
+    L = rng.choice([16, 32, 32, 64, 64, rng.randint(1, 64), 96, 128])
     if cls == "fragment":
         return gen_fragment(rng)
     sh = Shadow(L)
@@ -297,9 +297,14 @@ def gen(cls, idx, rng, tier):
                 fixed = f.length if f.length is not None else (
                     f.loc[1] if f.loc else None)
                 hi = (1 << fixed) - 1 if fixed else rng.choice(
-                    [1, 3, 7, 200, 1000, (1 << rng.randint(1, 40)) - 1])
+                    [1, 3, 7, 200, 1000, (1 << rng.randint(1, 40)) - 1,
+                     (1 << rng.randint(41, max(42, L - 1))) + 1])
                 if kids and rng.random() < .7:
                     v = rng.choice(kids)
+                elif not fixed and hi > 1000 and rng.random() < .5:
+                    # widths are decided at powers of two
+                    k = max(1, hi.bit_length() - 1)
+                    v = rng.choice([(1 << k) - 1, 1 << k, (1 << k) + 1, hi])
                 else:
                     v = rng.randint(0, hi)
                 if rng.random() < .03:
